@@ -27,6 +27,7 @@ type Ctx struct {
 	// Deadline after which a harness must stop and mark the result capped.
 	Deadline time.Time
 	curPath  string
+	curFile  *os.File
 	savePath string
 	// Param passes a sub-mode to sched-binary workers.
 	Param string
@@ -38,8 +39,15 @@ func (c *Ctx) Cur(v interface{}) {
 	if c.curPath == "" {
 		return
 	}
+	if c.curFile == nil {
+		f, err := os.OpenFile(c.curPath, os.O_CREATE|os.O_WRONLY|os.O_TRUNC, 0o644)
+		if err != nil {
+			return
+		}
+		c.curFile = f
+	}
 	b, _ := json.Marshal(v)
-	os.WriteFile(c.curPath, b, 0o644)
+	c.curFile.WriteAt(append(b, '\n'), 0) // one syscall; stale bytes after the newline are ignored by the parent
 }
 
 // Abort records a violation that makes further exploration in this process pointless (a hung
@@ -233,6 +241,9 @@ func runWorkers(id, tier, bin string, n int, outdir, param string, merged *evid.
 			// worker died without a result
 			tail := tailFile(filepath.Join(outdir, fmt.Sprintf("w%d.stderr", k)), 6000)
 			cur, _ := os.ReadFile(filepath.Join(outdir, fmt.Sprintf("w%d.cur", k)))
+			if i := strings.IndexByte(string(cur), '\n'); i >= 0 {
+				cur = cur[:i]
+			}
 			if len(cur) == 0 || err == nil {
 				fmt.Fprintf(os.Stderr, "BROKEN: worker %d ended without result (err=%v):\n%s\n", k, err, tail)
 				broken = true
